@@ -126,6 +126,12 @@ def generate(seed: int, tier: str = "quick") -> Dict[str, Any]:
                               "suffix": rng.random() < 0.4, "split": rng.random() < 0.4})
             op["lines"] = lines
             op["form"] = rng.choice(["strs", "tuples", "rules_arg", "mapping"])
+            # (default_rule is not varied: on the pinned tree parse_rxns ignores it unless parse_rule_from_suffix=False,
+            #  contrary to its docstring - rule labels are not part of C15, see DESIGN 8.4)
+            if op["form"] == "tuples" and rng.random() < 0.3:
+                op["prefer_suffix"] = True                             # a "| rule=" suffix beats the explicit per-line rule
+                for ln in lines:
+                    ln["rule2"] = rng.choice(rules)
         elif k == "remove_rxn":
             op["which"] = rng.randrange(16)
             op["bogus"] = rng.random() < p_bogus
@@ -501,6 +507,11 @@ def _run(case: Dict[str, Any], sim: Sim, world: World) -> None:
                 eff_rules: List[Optional[str]] = [ln["rule"] if (ln.get("suffix") and ln.get("rule")) else None for ln in lines]
                 arg: Any = texts
                 kw: Dict[str, Any] = {}
+            elif form == "tuples" and op.get("prefer_suffix"):
+                texts = [_rxn_str(ln) for ln in lines]
+                eff_rules = [ln["rule"] if (ln.get("suffix") and ln.get("rule")) else ln.get("rule2") for ln in lines]
+                arg = [(t, ln.get("rule2")) for t, ln in zip(texts, lines)]
+                kw = {"prefer_suffix": True}
             else:
                 # an explicit per-line rule is passed, so the text carries no suffix
                 texts = [_rxn_str(dict(ln, suffix=False)) for ln in lines]
